@@ -30,9 +30,10 @@ theorem mem_stripRP {p : Char → Bool} {s : Str} {c : Char} (h : c ∈ stripRP 
 
 theorem wfMnem_facts {s : Str} (h : wfMnem s = true) :
     ∃ c r, s = c :: r ∧ isSpace c = false ∧ c ≠ '~' ∧ c ≠ '#' ∧
-      (∀ x ∈ s, isSpace x = false ∧ x ≠ '.' ∧ x ≠ ':') ∧ stringToValue s = .text s := by
+      (∀ x ∈ s, isSpace x = false ∧ x ≠ '.' ∧ x ≠ ':') ∧ strip s = s := by
   simp only [wfMnem, Bool.and_eq_true, List.all_eq_true, Bool.not_eq_true', bne_iff_ne, ne_eq, beq_iff_eq] at h
-  obtain ⟨⟨⟨⟨hne, hall⟩, hh⟩, ht⟩, hv⟩ := h
+  obtain ⟨⟨⟨hne, hall⟩, hh⟩, ht⟩ := h
+  have hv : strip s = s := stripP_nospace isSpace s (fun x hx => (hall x hx).1.1)
   cases s with
   | nil => simp at hne
   | cons c r =>
@@ -107,13 +108,16 @@ theorem stringToValue_valuePart (vt : Str) (b c : Nat) : stringToValue (valuePar
     simpa using this
   · exact stringToValue_pad (spaces (b + 1)) vt (spaces c) (spaces_isSpaceC _) (spaces_isSpaceC c)
 
+theorem optStrip_ite (u : Str) : optStrip (if u.isEmpty then none else some u) = strip u := by
+  cases u <;> rfl
+
 theorem wfHLine_facts {h : HLine} (hw : wfHLine h = true) :
-    wfMnem h.mnem = true ∧ (∀ x ∈ h.unit, isSpace x = false ∧ x ≠ ':') ∧ stringToValue h.unit = .text h.unit ∧
+    wfMnem h.mnem = true ∧ (∀ x ∈ h.unit, isSpace x = false ∧ x ≠ ':') ∧ strip h.unit = h.unit ∧
     wfValue h.value = true ∧ (∀ x ∈ h.desc, x ≠ ':' ∧ x ≠ '\n') ∧ stringToValue h.desc = .text h.desc := by
   simp only [wfHLine, wfUnit, wfDesc, Bool.and_eq_true, List.all_eq_true, Bool.not_eq_true', bne_iff_ne, ne_eq,
     beq_iff_eq] at hw
-  obtain ⟨⟨⟨hm, hu, hut⟩, hv⟩, hd, hdt⟩ := hw
-  exact ⟨hm, hu, hut, hv, hd, hdt⟩
+  obtain ⟨⟨⟨hm, hu⟩, hv⟩, hd, hdt⟩ := hw
+  exact ⟨hm, hu, stripP_nospace isSpace _ (fun x hx => (hu x hx).1), hv, hd, hdt⟩
 
 /-- the description part after the last colon, as the reader sees it -/
 theorem desc_part (desc : Str) (d e : Nat) (w : Str) (hw : ∀ c ∈ w, isSpace c = true)
@@ -192,7 +196,7 @@ theorem header_line (h : HLine) (p : HPad) (hw : wfHLine h = true) :
     desc_part h.desc p.d p.e ['\n'] (by intro c hc; simp at hc; subst hc; decide) hdt
   unfold lineToSectLine
   rw [hdot]
-  simp only [hcolon, hf0, hf1, optToValue_ite, hdesc, hmt, hut]
+  simp only [hcolon, hf0, hf1, optToValue_ite, optStrip_ite, hdesc, hmt, hut]
   rw [show stringToValue R = h.value from by
     simp only [R]; rw [stringToValue_valuePart, stringToValue_printValue _ _ hv]]
   rfl
